@@ -53,8 +53,11 @@ type writeSpec struct {
 	Size     int     `json:"size"`
 	Seed     uint64  `json:"content_seed"`
 	Chunking string  `json:"chunking"`
-	Reads    []int   `json:"reads"` // sizes the reader returns, in order
+	Reads    []int   `json:"reads"`  // sizes the reader returns, in order
 	Ending   string  `json:"ending"` // eof | err | cancel
+	// the last Read result comes together with the ending (n > 0 and io.EOF / the error / the cancel),
+	// as io.Reader allows; after an error delivered this way the reader answers (0, io.EOF)
+	EndWithData bool `json:"ending_with_data,omitempty"`
 }
 
 type readSpec struct {
@@ -85,18 +88,23 @@ func content(seed uint64, size int) []byte {
 
 // scriptedReader returns exactly the scripted read sizes, then the scripted ending
 type scriptedReader struct {
-	data   []byte
-	reads  []int
-	i      int
-	pos    int
-	ending string
-	cancel context.CancelFunc
-	got    [][2]uint64 // (len, crc) per Read result
+	data     []byte
+	reads    []int
+	i        int
+	pos      int
+	ending   string
+	withData bool
+	ended    bool
+	cancel   context.CancelFunc
+	got      [][2]uint64 // (len, crc) per Read result
 }
 
 var errReader = errors.New("scripted reader failure")
 
 func (r *scriptedReader) Read(p []byte) (int, error) {
+	if r.ended {
+		return 0, io.EOF
+	}
 	if r.i >= len(r.reads) {
 		switch r.ending {
 		case "err":
@@ -115,6 +123,17 @@ func (r *scriptedReader) Read(p []byte) (int, error) {
 	copy(p, r.data[r.pos:r.pos+n])
 	r.got = append(r.got, [2]uint64{uint64(n), uint64(crc32.ChecksumIEEE(r.data[r.pos : r.pos+n]))})
 	r.pos += n
+	if r.withData && r.i == len(r.reads) {
+		r.ended = true
+		switch r.ending {
+		case "err":
+			return n, errReader
+		case "cancel":
+			r.cancel()
+			return n, nil
+		}
+		return n, io.EOF
+	}
 	return n, nil
 }
 
@@ -223,7 +242,7 @@ func run(sc *scenario) (coq string, tags []string, err error) {
 			}
 			data := content(w.Seed, w.Size)
 			ctx, cancel := context.WithCancel(context.Background())
-			rd := &scriptedReader{data: data, reads: w.Reads, ending: w.Ending, cancel: cancel}
+			rd := &scriptedReader{data: data, reads: w.Reads, ending: w.Ending, withData: w.EndWithData, cancel: cancel}
 			var lim iblobstorage.WLimiterType = func(uint64) error { return nil }
 			if w.Quota >= 0 {
 				lim = iblobstoragestg.NewWLimiter_Size(iblobstorage.BLOBMaxSizeType(w.Quota))
